@@ -64,3 +64,38 @@ Print Assumptions C02_delivered_execute.
 Print Assumptions C02_delivered_hook.
 Print Assumptions C02_attached_funds.
 Print Assumptions C02_hook_confusion_rejected.
+
+From HT Require Import Proofs.WFProofs Proofs.TxEffectProofs.
+Theorem C02_tx_native : forall w p ps c d amount bp ms to w',
+  WF w -> w_pairs w p = Some ps -> c <> p ->
+  exec w (OSwap p c [(d, amount)] (ANative d) amount bp ms to) = Ok w' ->
+  let offer := ANative d in
+  let ask := if asset_eqb offer (p_a0 ps) then p_a1 ps else p_a0 ps in
+  let rcv := match to with Some t => t | None => c end in
+  rcv <> p ->
+  exists ret spread comm,
+    compute_swap (bal w offer p) (bal w ask p) amount (p_comm ps) = Ok (ret, spread, comm) /\
+    bal w' offer p = bal w offer p + amount /\
+    bal w' ask p + ret = bal w ask p /\
+    (rcv <> c -> bal w' ask rcv = bal w ask rcv + ret /\ bal w' offer c + amount = bal w offer c /\ bal w' ask c = bal w ask c) /\
+    (rcv = c -> bal w' ask c = bal w ask c + ret /\ bal w' offer c + amount = bal w offer c) /\
+    (forall z a, a <> p -> a <> c -> a <> rcv -> bal w' z a = bal w z a).
+Proof. exact tx_swap_native_effect. Qed.
+Print Assumptions C02_tx_native.
+
+Theorem C02_tx_hook : forall w ta sender p ps n offer amount bp ms to w',
+  WF w -> w_pairs w p = Some ps -> sender <> p ->
+  exec w (OSend ta sender p n (HSwap offer amount bp ms to)) = Ok w' ->
+  let ask := if asset_eqb offer (p_a0 ps) then p_a1 ps else p_a0 ps in
+  let rcv := match to with Some t => t | None => sender end in
+  rcv <> p ->
+  offer = AToken ta /\ amount = n /\
+  exists ret spread comm,
+    compute_swap (bal w offer p) (bal w ask p) amount (p_comm ps) = Ok (ret, spread, comm) /\
+    bal w' offer p = bal w offer p + amount /\
+    bal w' ask p + ret = bal w ask p /\
+    (rcv <> sender -> bal w' ask rcv = bal w ask rcv + ret /\ bal w' offer sender + amount = bal w offer sender /\ bal w' ask sender = bal w ask sender) /\
+    (rcv = sender -> bal w' ask sender = bal w ask sender + ret /\ bal w' offer sender + amount = bal w offer sender) /\
+    (forall z a, a <> p -> a <> sender -> a <> rcv -> bal w' z a = bal w z a).
+Proof. exact tx_swap_hook_effect. Qed.
+Print Assumptions C02_tx_hook.
